@@ -169,7 +169,7 @@ func init() {
 		ID:    "C06",
 		Level: "model_checking",
 		Rule: "G goroutines run under a cooperative scheduler, one at a time; scheduling points are thread start, every operation of package sync reached from gojq (the sources' \"sync\" import is rewritten to a shim by build overlay; today the regexp cache's sync.Map), Compile, and every return of Iter.Next. For each scenario EVERY schedule with at most 2 (thorough: 3) preemptions is executed (depth-first over choice prefixes, replayed from the start each time). " +
-			"Scenarios: 113 programs (delete/update-heavy incl. updates that delete paths, accumulation from an empty first operand, sort/group, stream, regex with shared and distinct patterns and flags, programs whose literals are nested containers) x {one shared *Code and one shared input; shared *Code and distinct inputs; one shared *Query compiled by each goroutine; distinct Codes and one shared input; the shared value passed as a variable} for G=2, G=3 on one shared Code and input, and pairs of different programs on one shared input (quick: a quarter of the 6328 pairs, thorough: all), and pairs of goroutines that each parse and compile their own query (only the package-level builtin definitions are shared), and 7 programs that reach the file-system module loader while they run (modulemeta) on Codes sharing one loader. " +
+			"Scenarios: 126 programs (delete/update-heavy incl. updates that delete paths, accumulation from an empty first operand, sort/group, stream, regex with shared and distinct patterns and flags, programs whose literals are nested containers) x {one shared *Code and one shared input; shared *Code and distinct inputs; one shared *Query compiled by each goroutine; distinct Codes and one shared input; the shared value passed as a variable} for G=2, G=3 on one shared Code and input, and pairs of different programs on one shared input (quick: a quarter of the 7875 pairs, thorough: all), and pairs of goroutines that each parse and compile their own query (only the package-level builtin definitions are shared), and 7 programs that reach the file-system module loader while they run (modulemeta) on Codes sharing one loader. " +
 			"The scheduler's hand-offs are wrapped in runtime.RaceDisable/RaceEnable, so the race detector sees only the program's own happens-before edges and reports every conflicting unsynchronised access pair of an execution whatever its timing. Oracle per execution: no race report, no fatal error, no deadlock, per-goroutine outputs equal to the sequential baseline, shared input unchanged. A second pass releases all goroutines at once (20 repetitions per scenario) under the plain race detector.",
 		Assume:         []string{"the Go race detector's happens-before analysis (4 shadow cells per word, history_size=4); weak-memory reorderings beyond it are not modelled"},
 		Run:            c06Run,
